@@ -297,9 +297,9 @@ def playback(meta, prop):
         rc2, out2 = common.run(cmd2, cwd=crate, env=env, timeout=1800)
         txt.append("$ " + " ".join(cmd2))
         keep = [l for l in out2.splitlines()
-                if re.search(r"panicked at|^test |test result|^\s+\[C\d\d|assertion|overflow|index out|^error", l)]
+                if re.search(r"panicked at|^test |test result|^\s+\[C\d\d|assertion|overflow|index out|^error|signal|double free|corrupt|SIGABRT|SIGSEGV|Caused by|process didn't exit", l)]
         txt.append("\n".join(keep[-40:]))
-        if re.search(r"panicked at|test result: FAILED", out2):
+        if re.search(r"panicked at|test result: FAILED|signal: \d+|SIGABRT|SIGSEGV|double free", out2):
             reproduced = True
         # leave the work copy clean for the next run
         return "\n".join(txt), reproduced
